@@ -686,8 +686,7 @@ def family_throw_sites(repo):
             line_start = txt.rfind("\n", 0, m.start()) + 1
             head = norm(txt[line_start:m.start()])
             sites.append((f, m.group(1), head[:120]))
-        if re.search(r"\bthrow\s*;", txt):
-            sites.append((f, "rethrow", ""))
+        # a rethrow `throw;` inside a handler is not a new source of exceptions: not listed
     return sites
 
 
